@@ -587,3 +587,272 @@ Proof.
   rewrite (proj1 (all_good E X m dl Hext He Hd Hn v t Hex Ht)).
   rewrite (proj1 (all_good E E m dl (extends_refl E) He Hd Hn v t Hex Ht)). reflexivity.
 Qed.
+
+(* ------------------------------------------------------------------ *)
+(* compositionality: a codec for a composite shape = the element codec elementwise           *)
+Section Comp.
+  Variables (E: env) (m: mode) (dl: option bool).
+  Notation rp := (run_pack E m dl).
+
+  Lemma ident_pack t : copy_ident t = true -> forall v, pack E m dl v t = Ok v.
+  Proof.
+    destruct t; simpl; intros H v; try discriminate H; try (destruct v; reflexivity).
+    rewrite pack_TUnion. simpl in H. rewrite H. reflexivity.
+  Qed.
+
+  Lemma mapM_id {A} (l: list A) : mapM (fun x => Ok x) l = Ok l.
+  Proof. induction l as [|x r IH]; simpl; [reflexivity|rewrite IH; reflexivity]. Qed.
+
+  Theorem comp_list t l : rp (TList t) (VList l) = fmap VList (mapM (rp t) l).
+  Proof.
+    unfold run_pack. rewrite pack_TList_list. destruct (copy_ident t) eqn:Hc; [|reflexivity].
+    rewrite (mapM_ext_in (fun x => pack E m dl x t) (fun x => Ok x) l (fun x _ => ident_pack t Hc x)).
+    rewrite mapM_id. reflexivity.
+  Qed.
+
+  Theorem comp_dict t kvs :
+    rp (TDict t) (VDict kvs) =
+    fmap VDict (mapM (fun kv => fmap (pair (fst kv)) (rp t (snd kv))) kvs).
+  Proof.
+    unfold run_pack. rewrite pack_TDict_dict. destruct (copy_ident t) eqn:Hc.
+    - rewrite (mapM_ext_in _ (fun kv => Ok kv) kvs).
+      + rewrite mapM_id. reflexivity.
+      + intros [k x] _. simpl. rewrite (ident_pack t Hc x). reflexivity.
+    - f_equal. apply mapM_ext_in. intros [k x] _. simpl. destruct (pack E m dl x t); reflexivity.
+  Qed.
+
+  (* positional: element i with type i *)
+  Fixpoint zipM (ts: list ty) (l: list val) : res (list val) :=
+    match ts, l with
+    | [], _ => Ok []
+    | t :: tr, x :: r => match rp t x with
+                         | Ok y => match zipM tr r with Ok ys => Ok (y :: ys) | Err e => Err e end
+                         | Err e => Err e end
+    | _ :: _, [] => Err XRaw
+    end.
+
+  Lemma tuple_cl_zipM l ts : tuple_cl (map (pack E m dl) l) ts = zipM ts l.
+  Proof.
+    revert l. induction ts as [|t tr IH]; intros l; destruct l as [|x r]; simpl; try reflexivity.
+    unfold run_pack. rewrite IH. reflexivity.
+  Qed.
+
+  Theorem comp_tuple ts l : ts <> [] -> rp (TTuple ts) (VTuple l) = fmap VList (zipM ts l).
+  Proof.
+    intros Hne. unfold run_pack. rewrite pack_TTuple_tuple. rewrite tuple_cl_zipM.
+    destruct ts; [contradiction|reflexivity].
+  Qed.
+
+  Theorem comp_optional t v : rp (TOpt t) v = match v with VNone => Ok VNone | _ => rp t v end.
+  Proof. unfold run_pack. apply pack_TOpt. Qed.
+
+  (* the nested-in-a-dataclass entry point: the outer to_dict applies the field packer to the attribute *)
+  Theorem comp_field o d fs :
+    find_cls E o = Some d ->
+    rp (TData o) (VObj o fs) =
+    fmap VDict (mapM (fun f => match assoc fs (f_name f) with
+                               | None => Err XRaw
+                               | Some x => fmap (pair (key_of m dl d f)) (rp (f_ty f) x)
+                               end) (c_fields d)).
+  Proof.
+    intros Hf. unfold run_pack. rewrite pack_TData_obj.
+    assert (Ht: target E m o o = Some d) by (unfold target; destruct m; [rewrite dispatch_self|]; exact Hf).
+    rewrite Ht. unfold pack_fields_cl. f_equal. apply mapM_ext_in. intros f _.
+    rewrite (assoc_map (pack E m dl)). destruct (assoc fs (f_name f)) as [x|]; simpl; [|reflexivity].
+    destruct (pack E m dl x (f_ty f)); reflexivity.
+  Qed.
+
+  (* Outer(f=x).to_dict()['f'] for a one-field wrapper class *)
+  Corollary comp_wrapper w d t x :
+    find_cls E w = Some d -> c_fields d = [mkF "f" None t] ->
+    rp (TData w) (VObj w [("f", x)]) = fmap (fun y => VDict [("f", y)]) (rp t x).
+  Proof.
+    intros Hf Hfl. rewrite (comp_field w d _ Hf). rewrite Hfl. simpl.
+    unfold key_of. simpl. destruct (eff_by_alias m dl d); destruct (rp t x); reflexivity.
+  Qed.
+End Comp.
+
+(* ------------------------------------------------------------------ *)
+(* histories of creations and calls                                     *)
+Inductive op :=
+| OpCodec (t: ty) (dl: option bool)            (* BasicEncoder/Decoder(t, default_dialect=dl): fresh holders only *)
+| OpOneShot (t: ty) (v: val)                   (* encode(v, t): a codec that is dropped again *)
+| OpClass (d: cdef) (compiled: list cname)     (* class statement (e.g. a subclass): new class d; its nailed
+                                                  compilation installs methods on the plain classes [compiled] *)
+| OpCall (m: mode) (dl: option bool) (t: ty) (v: val).   (* an observed call *)
+
+Definition set_method (comp: list cname) (d: cdef) : cdef :=
+  if str_in (c_name d) comp then mkC (c_name d) (c_parent d) (c_fields d) (c_by_alias d) true else d.
+
+Definition add_class (E: env) (d: cdef) (comp: list cname) : env :=
+  match find_cls E (c_name d) with
+  | Some _ => E                                  (* existing class objects are never redefined *)
+  | None => (map (set_method comp) E ++ [d])%list
+  end.
+
+Fixpoint outs (E: env) (ops: list op) : list (res val) :=
+  match ops with
+  | [] => []
+  | OpCodec _ _ :: r => outs E r
+  | OpOneShot _ _ :: r => outs E r
+  | OpClass d comp :: r => outs (add_class E d comp) r
+  | OpCall m dl t v :: r => run_pack E m dl t v :: outs E r
+  end.
+
+(* the same calls without any creation in between *)
+Fixpoint calls (E: env) (ops: list op) : list (res val) :=
+  match ops with
+  | [] => []
+  | OpCall m dl t v :: r => run_pack E m dl t v :: calls E r
+  | _ :: r => calls E r
+  end.
+
+Lemma set_method_name comp d : c_name (set_method comp d) = c_name d.
+Proof. unfold set_method. destruct (str_in (c_name d) comp); reflexivity. Qed.
+
+Lemma set_method_shape comp d : same_shape d (set_method comp d).
+Proof.
+  unfold set_method. destruct (str_in (c_name d) comp); [|apply same_shape_refl].
+  repeat split; simpl; auto.
+Qed.
+
+Lemma find_map_set comp E c :
+  find_cls (map (set_method comp) E) c = option_map (set_method comp) (find_cls E c).
+Proof.
+  induction E as [|d r IH]; simpl; [reflexivity|]. rewrite set_method_name.
+  destruct (String.eqb (c_name d) c); [reflexivity|exact IH].
+Qed.
+
+Lemma find_app_some E d c x : find_cls E c = Some x -> find_cls (E ++ [d])%list c = Some x.
+Proof.
+  induction E as [|d' r IH]; simpl; [discriminate|].
+  destruct (String.eqb (c_name d') c); [auto|exact IH].
+Qed.
+
+Lemma extends_add E d comp : extends E (add_class E d comp).
+Proof.
+  unfold add_class. destruct (find_cls E (c_name d)); [apply extends_refl|].
+  intros c x Hf. exists (set_method comp x). split; [|apply set_method_shape].
+  apply find_app_some. rewrite find_map_set, Hf. reflexivity.
+Qed.
+
+Definition in_dom (E: env) (o: op) : Prop :=
+  match o with
+  | OpCall m dl t v => no_lookalike_union E t = true /\ dialect_compat E dl = true /\ exact E v t = true
+  | _ => True
+  end.
+
+Lemma frame_history_gen E0 ops : names_ok E0 = true -> Forall (in_dom E0) ops ->
+  forall X, extends E0 X -> outs X ops = calls E0 ops.
+Proof.
+  intros Hn. induction ops as [|o r IH]; intros Hall X Hext; [reflexivity|].
+  inversion Hall as [|? ? Ho Hr]; subst. destruct o; simpl.
+  - apply IH; assumption.
+  - apply IH; assumption.
+  - apply IH; [assumption|]. eapply extends_trans; [exact Hext|apply extends_add].
+  - destruct Ho as [H1 [H2 H3]]. rewrite (frame_exact E0 X m dl t v Hext H1 H2 Hn H3).
+    f_equal. apply IH; assumption.
+Qed.
+
+Theorem frame_history E0 ops : names_ok E0 = true -> Forall (in_dom E0) ops ->
+  outs E0 ops = calls E0 ops.
+Proof. intros Hn Hall. apply frame_history_gen; [exact Hn|exact Hall|apply extends_refl]. Qed.
+
+(* ------------------------------------------------------------------ *)
+(* refutations (the model contains the known findings)                   *)
+Definition f_ (n: string) (t: ty) : fdef := mkF n None t.
+
+(* D8: look-alike members.  K0.x:int, K1.x:date *)
+Definition E_look : env :=
+  [mkC "K0" None [f_ "x" TInt] None true; mkC "K1" None [f_ "x" TDate] None true].
+Definition t_look := TUnion [TData "K0"; TData "K1"].
+Definition v_look := VObj "K1" [("x", VDate "2020-01-02")].
+
+Lemma lookalike_witness :
+  names_ok E_look = true /\ dialect_compat E_look None = true /\ exact E_look v_look t_look = true /\
+  run_pack E_look Mixin None t_look v_look = Ok (VDict [("x", VStr "2020-01-02")]) /\
+  run_pack E_look Codec None t_look v_look = Ok (VDict [("x", VDate "2020-01-02")]).
+Proof. repeat split; reflexivity. Qed.
+
+(* strict-subclass instance at a parent-annotated position *)
+Definition E_sub : env :=
+  [mkC "K0" None [f_ "x" TInt] None true;
+   mkC "K1" (Some "K0") [f_ "x" TInt; f_ "y" TInt] None true;
+   mkC "K2" None [f_ "f" (TData "K0")] None true].
+Definition v_sub := VObj "K2" [("f", VObj "K1" [("x", VInt 1); ("y", VInt 2)])].
+
+Lemma subclass_witness :
+  In "K0" (chain E_sub 4 "K1") /\
+  run_pack E_sub Mixin None (TData "K2") v_sub = Ok (VDict [("f", VDict [("x", VInt 1); ("y", VInt 2)])]) /\
+  run_pack E_sub Codec None (TData "K2") v_sub = Ok (VDict [("f", VDict [("x", VInt 1)])]).
+Proof. repeat split; try reflexivity. simpl. right. left. reflexivity. Qed.
+
+(* creating a class that annotates the plain subclass K1 changes what an existing call returns *)
+Definition E_fr : env :=
+  [mkC "K0" None [f_ "x" TInt] None true;
+   mkC "K1" (Some "K0") [f_ "x" TInt; f_ "y" TInt] None false].
+Definition v_fr := VObj "K1" [("x", VInt 1); ("y", VInt 2)].
+Definition d_new := mkC "S0" None [f_ "g" (TOpt (TData "K1"))] None true.
+
+Lemma frame_subclass_witness :
+  outs E_fr [OpCall Mixin None (TData "K0") v_fr] = [Ok (VDict [("x", VInt 1)])] /\
+  outs E_fr [OpClass d_new ["K1"]; OpCall Mixin None (TData "K0") v_fr] = [Ok (VDict [("x", VInt 1); ("y", VInt 2)])] /\
+  outs E_fr [OpClass d_new ["K1"]; OpCall Codec None (TData "K0") v_fr] = outs E_fr [OpCall Codec None (TData "K0") v_fr].
+Proof. repeat split; reflexivity. Qed.
+
+(* a field-less dataclass member swallows every value on the codec path *)
+Definition E_fl : env := [mkC "K0" None [] None true].
+Definition t_fl := TUnion [TData "K0"; TDate].
+Lemma fieldless_witness :
+  exact E_fl (VDate "2020-01-02") t_fl = true /\
+  run_pack E_fl Mixin None t_fl (VDate "2020-01-02") = Ok (VStr "2020-01-02") /\
+  run_pack E_fl Codec None t_fl (VDate "2020-01-02") = Ok (VDict []).
+Proof. repeat split; reflexivity. Qed.
+
+(* call dialect has the highest, default dialect the lowest priority *)
+Definition E_dl : env := [mkC "K0" None [mkF "x" (Some "a_x") TInt] (Some false) true].
+Lemma dialect_witness :
+  exact E_dl (VObj "K0" [("x", VInt 1)]) (TData "K0") = true /\ no_lookalike_union E_dl (TData "K0") = true /\
+  run_pack E_dl Mixin (Some true) (TData "K0") (VObj "K0" [("x", VInt 1)]) = Ok (VDict [("a_x", VInt 1)]) /\
+  run_pack E_dl Codec (Some true) (TData "K0") (VObj "K0" [("x", VInt 1)]) = Ok (VDict [("x", VInt 1)]).
+Proof. repeat split; reflexivity. Qed.
+
+(* ------------------------------------------------------------------ *)
+(* decoding: composite decoder = element decoder elementwise (both paths)                     *)
+Section UnpackComp.
+  Variables (E: env) (m: mode).
+  Notation ru := (run_unpack E m).
+
+  Theorem unpack_comp_list t l : ru (TList t) (VList l) = fmap VList (mapM (ru t) l).
+  Proof. reflexivity. Qed.
+
+  Theorem unpack_comp_dict t kvs :
+    ru (TDict t) (VDict kvs) = fmap VDict (mapM (fun kv => fmap (pair (fst kv)) (ru t (snd kv))) kvs).
+  Proof.
+    unfold run_unpack. simpl. f_equal. apply mapM_ext_in. intros [k x] _. simpl.
+    destruct (unpack E m x t); reflexivity.
+  Qed.
+
+  Theorem unpack_comp_optional t v : ru (TOpt t) v = match v with VNone => Ok VNone | _ => ru t v end.
+  Proof. unfold run_unpack. destruct v; reflexivity. Qed.
+
+  Fixpoint zipU (ts: list ty) (l: list val) : res (list val) :=
+    match ts, l with
+    | [], _ => Ok []
+    | t :: tr, x :: r => match ru t x with
+                         | Ok y => match zipU tr r with Ok ys => Ok (y :: ys) | Err e => Err e end
+                         | Err e => Err e end
+    | _ :: _, [] => Err XRaw
+    end.
+
+  Lemma tuple_cl_zipU l ts : tuple_cl (map (unpack E m) l) ts = zipU ts l.
+  Proof.
+    revert l. induction ts as [|t tr IH]; intros l; destruct l as [|x r]; simpl; try reflexivity.
+    unfold run_unpack. rewrite IH. reflexivity.
+  Qed.
+
+  Theorem unpack_comp_tuple ts l : ts <> [] -> ru (TTuple ts) (VList l) = fmap VTuple (zipU ts l).
+  Proof.
+    intros Hne. unfold run_unpack. simpl. rewrite tuple_cl_zipU. destruct ts; [contradiction|reflexivity].
+  Qed.
+End UnpackComp.
